@@ -50,6 +50,18 @@ class Own(Flow):
             if isinstance(v, (ast.Name, ast.Attribute)):
                 rs = self.model.resolve_symbol(v._mod, getattr(v, '_fn', None), v)
                 return bool(rs and rs[0] == 'class')
+            # {key: ClassA, ...}.get(k) / {...}[k]: a table of classes (None is replaced before the call, or the
+            # call itself would fail)
+            d = None
+            if isinstance(v, ast.Call) and isinstance(v.func, ast.Attribute) and v.func.attr == 'get' \
+                    and isinstance(v.func.value, ast.Dict) and 1 <= len(v.args) <= 2:
+                d = v.func.value
+                if len(v.args) == 2 and not is_cls(v.args[1]):
+                    return False
+            elif isinstance(v, ast.Subscript) and isinstance(v.value, ast.Dict):
+                d = v.value
+            if d is not None and d.values:
+                return all(is_cls(x) for x in d.values)
             return False
         return all(is_cls(v) for v in vals)
 
